@@ -410,7 +410,14 @@ def run_case(case, sched):
                         # sliced_wasserstein projects onto single-precision directions, so NumPy's promotion rules
                         # make its working precision depend on the input dtype (uint8 x float32 -> float32):
                         # its representation clause is held to single precision
-                        where = api.same(out[1], out2[1], rel=1e-5 if spec["fn"] == "sliced_wasserstein" else 1e-9)
+                        where = api.same(out[1], out2[1], rel=1e-9)
+                        if where and spec["fn"] == "sliced_wasserstein":
+                            # single-precision routine: absolute error ~1e-7 * coordinate scale, whatever the result's size
+                            sc_ = max([abs(x) for i_ in (spec["a"], spec["b"]) for p_ in fx["dgms"][i_] for x in p_
+                                       if x == x and abs(x) != float("inf")] + [1.0])
+                            a_, b_ = out[1], out2[1]
+                            if isinstance(a_, float) and isinstance(b_, float) and abs(a_ - b_) <= 1e-5 * sc_:
+                                where = None
                         if where:
                             raise Violation("representation-independent", site, rep_tag(spec) + "~" + rep_tag(sp2),
                                             "equal-valued inputs given as %s and as %s give different results (at %s)"
